@@ -116,8 +116,8 @@ func (g *coreGen) floatLit() *ref.Expr {
 
 func (g *coreGen) rtimeLit() *ref.Expr {
 	n := int64(g.n(0, 120, "rn"))
-	unit := pickS(g, []string{"ms", "s", "m", "h"}, "runit")
-	mult := map[string]int64{"ms": 1, "s": 1000, "m": 60000, "h": 3600000}[unit]
+	unit := pickS(g, []string{"ms", "s", "m", "h", "ms", "s", "m", "h", "d", "y"}, "runit")
+	mult := map[string]int64{"ms": 1, "s": 1000, "m": 60000, "h": 3600000, "d": 86400000, "y": 365 * 86400000}[unit]
 	return &ref.Expr{K: "rtime", T: ref.TRTime, I: n * mult, Lit: fmt.Sprintf("%d%s", n, unit)}
 }
 
